@@ -60,6 +60,16 @@ FLUXES = {'convection': [None], 'burgers': [None], 'shallowwater': ['centered', 
 
 
 def make_num(B, fd, name):
+    num = _make_num(B, fd, name)
+    # other scheme objects are created AFTER the one under test (a program that compares schemes does that): nothing an instance
+    # holds may live on the class or the module
+    xn = fd.xnum
+    for other in (lambda: xn.extrapolk(B.const('7/10')), xn.extrapol1, xn.extrapol2, xn.centered, xn.extrapol3, lambda: xn.muscl(xn.superbee)):
+        other()
+    return num
+
+
+def _make_num(B, fd, name):
     xn = fd.xnum
     if name == 'extrapolk':
         return xn.extrapolk(B.var('kappa', -1.0, 1.0))
@@ -69,6 +79,16 @@ def make_num(B, fd, name):
 
 
 def make_model(B, fd, cfg):
+    model = _make_model(B, fd, cfg)
+    # same for the models: the registries of boundary conditions / variables / fluxes are merged at construction time
+    fd.euler.euler2d(gamma=B.const('5/3'))
+    fd.euler.euler1d(gamma=B.const('5/3'))
+    fd.shallowwater.shallowwater1d(g=B.const(3))
+    fd.convection.model(B.const(-1))
+    return model
+
+
+def _make_model(B, fd, cfg):
     m = cfg['model']
     if m == 'convection':
         a = B.var('aconv', -2.0, 2.0)
